@@ -16,7 +16,7 @@ LOCK = ["absent", "valid_ahead", "corrupt", "empty", "out_of_range", "negative",
         "absent+stale_scratch", "valid_ahead+stale_scratch",
         # a valid lock reached through a symbolic link; locks that are not text at all (UTF-16 as a PowerShell redirect writes it,
         # a Latin-1 byte, binary junk): unparsable, hence ignored
-        "valid_ahead_via_symlink", "utf16", "latin1_byte", "binary", "valid_ahead_readonly"]
+        "valid_ahead_via_symlink", "utf16", "latin1_byte", "binary", "valid_ahead_readonly", "duplicate_key"]
 MODE = ["check", "edit"]
 TREE = ["missing", "none_missing"]
 LOCKVAL = 1000
@@ -47,7 +47,9 @@ LOCK_TEXT = {"absent": None, "valid_ahead": core.lock_text(LOCKVAL), "corrupt": 
              "valid_ahead_via_symlink": core.lock_text(LOCKVAL), "valid_ahead_readonly": core.lock_text(LOCKVAL),
              "utf16": b"\xff\xfe" + core.lock_text(2).encode("utf-16-le"),
              "latin1_byte": (core.LOCK_HEADER + "# gr\xfc\xdfe\nnext_reference_id: 2\n").encode("latin-1"),
-             "binary": bytes(range(256)) * 3}
+             "binary": bytes(range(256)) * 3,
+             # a merge conflict "resolved" by deleting only the marker lines: the key twice, not a valid lock
+             "duplicate_key": core.LOCK_HEADER + "next_reference_id: 2000\nnext_reference_id: 2\n"}
 
 
 def expected(p):
